@@ -83,6 +83,9 @@ def main(argv):
     # build a variable TTFont from the designspace document
     # TODO: Use ufo2ft.compileVariableCFF2 for CFF
     vf = ufo2ft.compileVariableTTF(designspace)
+    # the masters keep glyph names to be mergeable; the font only if asked to
+    if not font_config.keep_glyph_names:
+        vf["post"].formatType = 3  # no glyph names
     vf.save(font_config.output_file)
 
 
